@@ -117,11 +117,15 @@ type Cfg struct {
 	Separate       bool     `json:"separate"` // separate target package
 	ImportOverride bool     `json:"importoverride"`
 	DottedImport   bool     `json:"dottedimport"` // the struct package lives at an import path whose last element has a dot (types.v1)
-	Exclude        []string `json:"exclude"`
-	Required       []string `json:"required"`
-	Computed       []string `json:"computed"`
-	Sensitive      []string `json:"sensitive"`
-	NameOverrides  []KV     `json:"nameoverrides"`
+	// SameName: the separate target package is NAMED like the struct package (last element of its import path)
+	SameName bool `json:"samename"`
+	// ExtraOverride: import_path_overrides carries a second, unrelated entry whose key is a prefix of the struct package's path
+	ExtraOverride bool     `json:"extraoverride"`
+	Exclude       []string `json:"exclude"`
+	Required      []string `json:"required"`
+	Computed      []string `json:"computed"`
+	Sensitive     []string `json:"sensitive"`
+	NameOverrides []KV     `json:"nameoverrides"`
 	// SchemaTypes: schema_types overrides, field key -> "string" | "int64" (the harness's OvrStringType / OvrIntType)
 	SchemaTypes    []KV   `json:"schematypes"`
 	Validators     []KVs  `json:"validators"`
